@@ -21,6 +21,7 @@ type Obligation struct {
 	Desc  string
 	Pos   string
 	Goal  string
+	Guard string // reachability condition of the program point (for the vacuity re-check)
 	Props []string // properties this obligation is attributed to by its tag (Cxx.*), else empty
 }
 
@@ -113,6 +114,9 @@ type Enc struct {
 	specUsed    map[string]bool
 	specDecls   []string
 	usedLock    bool
+	pendingGuard string
+	frameOf      map[string]*frameInfo // framed heap constant -> what it preserves
+	baseOf       map[string]string     // named heap constant defined as a store chain -> its base term
 	rootMemo    map[string]string
 	sliceRoot   map[string]string
 	trustedUsed map[string]bool
@@ -127,7 +131,8 @@ func newEnc(w *World, cs *Contracts, fn *ssa.Function) *Enc {
 		heapSort: map[string]string{}, reach: map[*ssa.BasicBlock]string{}, outHeap: map[*ssa.BasicBlock]*Heap{},
 		edge: map[[2]int]string{}, loops: map[*ssa.BasicBlock]*loopInfo{}, inLoop: map[*ssa.BasicBlock][]*loopInfo{},
 		localCells: map[string][]string{}, names: map[string]ssa.Value{}, nameAt: map[*ssa.BasicBlock]map[string]ssa.Value{},
-		trustedUsed: map[string]bool{}, rootMemo: map[string]string{}, sliceRoot: map[string]string{}}
+		trustedUsed: map[string]bool{}, rootMemo: map[string]string{}, sliceRoot: map[string]string{},
+		frameOf: map[string]*frameInfo{}, baseOf: map[string]string{}}
 	if e.name == "" {
 		e.name = funcName(fn)
 	}
@@ -311,6 +316,9 @@ func (e *Enc) epochGet(ep *epoch, key, sort string) string {
 	if key == "$A" {
 		full = "Int"
 	}
+	if strings.HasPrefix(key, "$s:") {
+		full = sort
+	}
 	if len(ep.parents) > 0 {
 		// join: if all parents agree, reuse their term
 		var ts []string
@@ -332,6 +340,7 @@ func (e *Enc) epochGet(ep *epoch, key, sort string) string {
 			t = app("ite", ep.parents[i].cond, ts[i], t)
 		}
 		e.assert(app("=", n, t))
+		e.baseOf[n] = t
 		ep.memo[key] = n
 		return n
 	}
@@ -345,6 +354,7 @@ func (e *Enc) epochGet(ep *epoch, key, sort string) string {
 		old := e.heapGet(prev, key, sort)
 		if key == "$A" {
 			e.assert(app(">=", n, old))
+		} else if strings.HasPrefix(key, "$s:") {
 		} else {
 			for _, c := range e.localCells[key] {
 				e.assert(app("=", app("select", n, c), app("select", old, c)))
@@ -403,7 +413,7 @@ func (e *Enc) load(h *Heap, addr string, addrV ssa.Value, t types.Type) string {
 		return n
 	}
 	key := e.keyForAddr(addrV, t)
-	return app("select", e.heapGet(h, key, e.sortOf(t)), addr)
+	return e.sel(e.heapGet(h, key, e.sortOf(t)), addr)
 }
 
 func (e *Enc) loadField(h *Heap, base, structName string, st *types.Struct, i int) string {
@@ -425,7 +435,7 @@ func (e *Enc) loadField(h *Heap, base, structName string, st *types.Struct, i in
 		return e.load(h, addr, nil, ft)
 	}
 	key := e.w.fieldKey(structName, st, i)
-	return app("select", e.heapGet(h, key, e.sortOf(ft)), addr)
+	return e.sel(e.heapGet(h, key, e.sortOf(ft)), addr)
 }
 
 // store writes value v of Go type t at addr.
@@ -482,10 +492,13 @@ func (e *Enc) compact(h *Heap) {
 			var n string
 			if k == "$A" {
 				n = e.fresh("A", "Int")
+			} else if strings.HasPrefix(k, "$s:") {
+				n = e.fresh("G", e.heapSort[k])
 			} else {
 				n = e.fresh("H_"+sanitize(k), "(Array Ref "+e.heapSort[k]+")")
 			}
 			e.assert(app("=", n, t))
+			e.baseOf[n] = t
 			h.m[k] = n
 		}
 	}
@@ -504,6 +517,10 @@ func (e *Enc) havocKey(h *Heap, key string) {
 	if !ok {
 		// sort not known yet: remember through a private epoch so a later read gets a fresh term
 		e.pendingHavoc(h, key)
+		return
+	}
+	if strings.HasPrefix(key, "$s:") {
+		h.m[key] = e.fresh("G", srt)
 		return
 	}
 	old := e.heapGet(h, key, srt)
@@ -606,10 +623,13 @@ func (e *Enc) joinHeaps(ps []epParent) *Heap {
 		var n string
 		if k == "$A" {
 			n = e.fresh("A", "Int")
+		} else if strings.HasPrefix(k, "$s:") {
+			n = e.fresh("G", srt)
 		} else {
 			n = e.fresh("H_"+sanitize(k), "(Array Ref "+srt+")")
 		}
 		e.assert(app("=", n, t))
+		e.baseOf[n] = t
 		out.m[k] = n
 	}
 	return out
@@ -771,7 +791,8 @@ func (e *Enc) oblige(class, desc, tag string, pos token.Pos, goal string) {
 		pp := e.w.Fset.Position(pos)
 		p = fmt.Sprintf("%s:%d", strings.TrimPrefix(pp.Filename, e.w.RepoDir+"/"), pp.Line)
 	}
-	o := &Obligation{Name: name, Func: e.name, Class: class, Tag: tag, Desc: desc, Pos: p, Goal: goal}
+	o := &Obligation{Name: name, Func: e.name, Class: class, Tag: tag, Desc: desc, Pos: p, Goal: goal, Guard: e.pendingGuard}
+	e.pendingGuard = ""
 	if strings.HasPrefix(tag, "C") && len(tag) >= 3 {
 		if k := strings.Index(tag, "."); k > 0 {
 			o.Props = []string{tag[:k]}
@@ -780,7 +801,10 @@ func (e *Enc) oblige(class, desc, tag string, pos token.Pos, goal string) {
 	e.obls = append(e.obls, o)
 }
 
-func (e *Enc) guardGoal(goal string) string { return implies(e.reach[e.curBlock], goal) }
+func (e *Enc) guardGoal(goal string) string {
+	e.pendingGuard = e.reach[e.curBlock]
+	return implies(e.reach[e.curBlock], goal)
+}
 
 func (e *Enc) instrDesc(ins ssa.Instruction) string {
 	type poser interface{ Pos() token.Pos }
@@ -894,4 +918,107 @@ func (e *Enc) noteRoot(name, sortS, t string) {
 			e.sliceRoot[name] = r
 		}
 	}
+}
+
+// frameInfo: heap constant n agrees with prev on every cell whose allocation root is <= apre and is not one of except.
+type frameInfo struct {
+	prev   string
+	apre   string
+	except []string // roots (Int terms) of arrays the callee/loop may write
+}
+
+// heapBase strips stores and named store chains down to the underlying heap constant.
+func (e *Enc) heapBase(t string) string {
+	for i := 0; i < 64; i++ {
+		if strings.HasPrefix(t, "(store ") {
+			a := splitArgs(t)
+			if len(a) == 4 {
+				t = a[1]
+				continue
+			}
+		}
+		if b, ok := e.baseOf[t]; ok {
+			t = b
+			continue
+		}
+		break
+	}
+	return t
+}
+
+// sel reads heap term ht at addr. Reads through a framed constant are expressed so that the frame is part of the term:
+// the read itself says "if the cell existed before the havoc (and is not a declared write target) it has its old value".
+func (e *Enc) sel(ht, addr string) string {
+	return e.selDepth(ht, addr, 0)
+}
+
+func (e *Enc) selDepth(ht, addr string, depth int) string {
+	if depth > 6 {
+		return app("select", ht, addr)
+	}
+	// only reads whose store chain is trivially transparent are rewritten: the base must be reached without stores
+	// that could hit addr; we therefore rewrite only when ht itself is the framed constant or a named alias of it
+	b := ht
+	if fi, ok := e.frameOf[b]; ok {
+		cond := app("<=", e.rootOf(addr), fi.apre)
+		for _, x := range fi.except {
+			cond = and(cond, app("distinct", e.rootOf(addr), x))
+		}
+		return app("ite", cond, e.selDepth(fi.prev, addr, depth+1), app("select", b, addr))
+	}
+	if strings.HasPrefix(ht, "(store ") && e.mentionsFrame(ht, 0) {
+		a := splitArgs(ht)
+		if len(a) == 4 {
+			return app("ite", app("=", addr, a[2]), a[3], e.selDepth(a[1], addr, depth))
+		}
+	}
+	if strings.HasPrefix(ht, "(ite ") {
+		a := splitArgs(ht)
+		if len(a) == 4 && e.mentionsFrame(a[2], 0) || len(a) == 4 && e.mentionsFrame(a[3], 0) {
+			return app("ite", a[1], e.selDepth(a[2], addr, depth+1), e.selDepth(a[3], addr, depth+1))
+		}
+	}
+	if def, ok := e.baseOf[ht]; ok && e.mentionsFrame(def, 0) {
+		return e.selDepth(def, addr, depth)
+	}
+	return app("select", ht, addr)
+}
+
+// mentionsFrame: does reading through heap term t ever reach a framed constant?
+func (e *Enc) mentionsFrame(t string, depth int) bool {
+	if depth > 8 {
+		return false
+	}
+	if _, ok := e.frameOf[t]; ok {
+		return true
+	}
+	if strings.HasPrefix(t, "(store ") {
+		a := splitArgs(t)
+		if len(a) == 4 {
+			return e.mentionsFrame(a[1], depth)
+		}
+	}
+	if strings.HasPrefix(t, "(ite ") {
+		a := splitArgs(t)
+		if len(a) == 4 {
+			return e.mentionsFrame(a[2], depth+1) || e.mentionsFrame(a[3], depth+1)
+		}
+	}
+	if def, ok := e.baseOf[t]; ok {
+		return e.mentionsFrame(def, depth+1)
+	}
+	return false
+}
+
+// havocKeyFramed: like havocKey, but cells allocated no later than apre (and not rooted at one of except) keep their value.
+func (e *Enc) havocKeyFramed(h *Heap, key string, apre string, except []string) {
+	srt, ok := e.heapSort[key]
+	if !ok {
+		e.pendingHavoc(h, key)
+		return
+	}
+	old := e.heapGet(h, key, srt)
+	n := e.fresh("H_"+sanitize(key), "(Array Ref "+srt+")")
+	e.frameOf[n] = &frameInfo{prev: old, apre: apre, except: except}
+	h.m[key] = n
 }
